@@ -315,6 +315,14 @@ class AsyncSrcFull(AsyncSrc):
         raise typ()
 
 
+class AsyncSrcAsend(AsyncSrc):
+    """Class based async iterator with aclose and asend but without athrow."""
+
+    async def asend(self, value: Any) -> Any:
+        CTX.ev("asend", self.st.sid)
+        return await self.__anext__()
+
+
 async def _async_gen(st: SrcState):
     try:
         while True:
@@ -340,7 +348,7 @@ async def _async_gen(st: SrcState):
 
 
 FLAVOURS_SYNC = ("list", "tuple", "getitem_seq", "sync_iter", "sync_gen")
-FLAVOURS_ASYNC = ("async_gen", "async_class", "async_class_bare", "async_class_full")
+FLAVOURS_ASYNC = ("async_gen", "async_class", "async_class_bare", "async_class_full", "async_class_asend")
 FLAVOURS = FLAVOURS_SYNC + FLAVOURS_ASYNC
 
 
@@ -365,6 +373,8 @@ def make_source(st: SrcState, flavour: str) -> Any:
         return AsyncSrcBare(st)
     if flavour == "async_class_full":
         return AsyncSrcFull(st)
+    if flavour == "async_class_asend":
+        return AsyncSrcAsend(st)
     raise ValueError(flavour)
 
 
